@@ -8,8 +8,14 @@
 // program is created, its metrics are preset to the snapshot, and the same
 // line is run on it.  The two must change the metrics identically (wall-clock
 // readings compared by class) and raise the same number of runtime errors.
-// Correspondence: the whole run, and a sample of the fresh runs, against
-// Lang/TimeReg.v (run_trace_new) with the time library tabulated.
+// Metrics with keys: the snapshot carries every label set (labels, value, datum
+// time, expiry) and the fresh VM's metrics are given the same label sets; and
+// between two lines the harness sometimes removes a live label set from the
+// aged VM's metric with Metric.RemoveDatum - what Store.Gc does on expiry or
+// over the limit - before the snapshot, so that both VMs start from equal
+// metrics while only the aged VM has seen the removed label set.
+// Correspondence: the whole run (removals included), and a sample of the fresh
+// runs, against Lang/TimeReg.v (run_htrace_new) with the time library tabulated.
 package main
 
 import (
@@ -22,7 +28,59 @@ import (
 )
 
 var weights = tmrun.Weights{Strp: 30, Strpc: 8, Sett: 8, Settc: 6, Gts: 18, Inc: 18, Conv: 8, Stop: 6, TwoLayouts: 15,
-	SC: 22, TailElse: 35, TailUncond: 8, HeadUncond: 25}
+	SC: 22, TailElse: 35, TailUncond: 8, HeadUncond: 25, Dim: 40}
+
+// gcChance: percent of the lines before which a live label set is removed from outside the VM.
+const gcChance = 25
+
+// chooser decides which live label sets of the aged VM are removed before line i.
+type chooser func(i int, live []tmrun.LSet) []tmrun.SlotName
+
+func noGc(int, []tmrun.LSet) []tmrun.SlotName { return nil }
+
+func randomGc(r *vlib.Rand) chooser {
+	return func(i int, live []tmrun.LSet) []tmrun.SlotName {
+		if i == 0 || len(live) == 0 || !r.Chance(gcChance) {
+			return nil
+		}
+		var out []tmrun.SlotName
+		n := 1
+		if len(live) > 1 && r.Chance(20) {
+			n = 2
+		}
+		for _, k := range permPrefix(r, len(live), n) {
+			out = append(out, tmrun.SlotName{Metric: live[k].Metric, Labels: live[k].Labels})
+		}
+		return out
+	}
+}
+
+func permPrefix(r *vlib.Rand, n, k int) []int {
+	p := make([]int, n)
+	for i := range p {
+		p[i] = i
+	}
+	for i := 0; i < k; i++ {
+		j := i + r.Intn(n-i)
+		p[i], p[j] = p[j], p[i]
+	}
+	return p[:k]
+}
+
+// recordedGc replays the removals of a recorded case.
+func recordedGc(ext [][]tmrun.SlotName) chooser {
+	return func(i int, _ []tmrun.LSet) []tmrun.SlotName {
+		if i < len(ext) {
+			return ext[i]
+		}
+		return nil
+	}
+}
+
+// afterLine removes the named label sets before the given line (corpus).
+func afterLine(m map[int][]tmrun.SlotName) chooser {
+	return func(i int, _ []tmrun.LSet) []tmrun.SlotName { return m[i] }
+}
 
 type result struct {
 	cases      []tmrun.Case
@@ -32,9 +90,20 @@ type result struct {
 }
 
 // classify names the construct a leak went through, for known-finding matching.
-func classify(hist [][]tmrun.Event, evs []tmrun.Event) string {
+func classify(hist [][]tmrun.Event, evs []tmrun.Event, setsDiffer bool) string {
 	matched := map[int]bool{}
 	strp := false
+	if setsDiffer {
+		// the label sets of a metric with keys came out differently: what the VM
+		// keeps about label sets it looked up, created or deleted on earlier lines
+		return "label-lookup-state-leak"
+	}
+	for _, e := range evs {
+		switch e.K {
+		case "exp":
+			return "label-lookup-state-leak" // `del ... after` fails when the label set is not found
+		}
+	}
 	for _, e := range evs {
 		switch e.K {
 		case "match":
@@ -53,7 +122,7 @@ func classify(hist [][]tmrun.Event, evs []tmrun.Event) string {
 	return "cross-line-state-leak"
 }
 
-func runOne(p tmrun.Prog, zone int, useYear bool, lines []string, freshSample int) result {
+func runOne(p tmrun.Prog, zone int, useYear bool, lines []string, gc chooser, freshSample int) result {
 	var res result
 	loc, err := tmrun.LoadZone(zone)
 	if err != nil {
@@ -76,36 +145,57 @@ func runOne(p tmrun.Prog, zone int, useYear bool, lines []string, freshSample in
 		}
 	}
 	year := tmrun.YearNow(loc)
-	init := a.Snap()
+	init := a.SnapAll()
+	slots := tmrun.NewSlots()
 	evs := make([][]tmrun.Event, len(lines))
 	for i, l := range lines {
 		evs[i] = p.Events(l)
+		slots.Assign(evs[i])
 	}
 	type fresh struct {
 		i      int
-		before []tmrun.Cell
-		after  []tmrun.Cell
+		before tmrun.World
+		after  tmrun.World
 		errs   int64
-		aAfter []tmrun.Cell
+		aAfter tmrun.World
 		aErrs  int64
 	}
 	var fr []fresh
-	var rawObs [][]tmrun.Cell
+	var rawObs []tmrun.World
 	var cum []int64
 	var total int64
+	ext := make([][]tmrun.SlotName, len(lines))
+	extSlots := make([][]int, len(lines))
+	extRaw := make([]*tmrun.World, len(lines))
+	extCum := make([]int64, len(lines))
 	for i, l := range lines {
-		before := a.Snap()
-		// the fresh copy, metrics preset to the same values
+		// removal from outside the VM, the way Store.Gc does it; only the aged VM
+		// has a past in which the label set existed
+		for _, x := range gc(i, a.SnapAll().Sets) {
+			a.RemoveSet(x.Metric, x.Labels)
+			ext[i] = append(ext[i], x)
+			extSlots[i] = append(extSlots[i], slots.ID(x.Metric, x.Labels))
+		}
+		before := a.SnapAll()
+		if len(ext[i]) > 0 {
+			w := before
+			extRaw[i], extCum[i] = &w, total
+		}
+		// the fresh copy, metrics preset to the same contents
 		b, err := tmrun.NewVM(src, loc, useYear)
 		if err != nil {
 			res.compileErr = true
 			return res
 		}
-		b.Preset(before)
+		b.PresetAll(before)
+		if got := b.SnapAll(); !br.SameSets(got.Sets, before.Sets) || len(got.Cells) != len(before.Cells) {
+			fmt.Fprintf(os.Stderr, "preset failed: %v vs %v\n", got, before)
+			os.Exit(3)
+		}
 		be := b.Line(l)
-		bAfter := b.Snap()
+		bAfter := b.SnapAll()
 		ae := a.Line(l)
-		aAfter := a.Snap()
+		aAfter := a.SnapAll()
 		total += ae
 		rawObs = append(rawObs, aAfter)
 		cum = append(cum, total)
@@ -113,52 +203,110 @@ func runOne(p tmrun.Prog, zone int, useYear bool, lines []string, freshSample in
 	}
 	br.After = time.Now()
 
-	mk := func(kind string, init []tmrun.Cell, ls []string, es [][]tmrun.Event, obs []tmrun.Obs) tmrun.Case {
-		return tmrun.Case{Kind: kind, Src: src, Prog: p, Zone: zone, UseYear: useYear, Year: year, NowS: br.MarkerS(),
-			Init: br.Canon(init), Lines: ls, Events: es, Table: tmrun.Table(loc, year, es), Obs: obs}
+	mkObs := func(w tmrun.World, errs int64) tmrun.Obs {
+		return tmrun.Obs{Cells: br.Canon(w.Cells), Sets: slots.SlotCells(br.CanonSets(w.Sets)), Errs: errs}
+	}
+	mk := func(kind string, init tmrun.World, from, to int, obs []tmrun.Obs, withExt bool) tmrun.Case {
+		c := tmrun.Case{Kind: kind, Src: src, Prog: p, Zone: zone, UseYear: useYear, Year: year, NowS: br.MarkerS(),
+			Init: br.Canon(init.Cells), InitSets: slots.SlotCells(br.CanonSets(init.Sets)),
+			Lines: lines[from:to], Events: evs[from:to], Table: tmrun.Table(loc, year, evs[from:to]), Obs: obs}
+		if withExt {
+			c.Ext, c.ExtSlots = ext[from:to], extSlots[from:to]
+			c.ExtObs = make([]*tmrun.Obs, to-from)
+			for i := from; i < to; i++ {
+				if extRaw[i] != nil {
+					o := mkObs(*extRaw[i], extCum[i])
+					c.ExtObs[i-from] = &o
+				}
+			}
+		}
+		return c
 	}
 	// the property, evaluated on the implementation alone
 	for _, f := range fr {
 		ok := f.errs == f.aErrs
-		for k := range f.after {
-			if !br.SameByClass(f.after[k], f.aAfter[k]) {
+		for k := range f.after.Cells {
+			if !br.SameByClass(f.after.Cells[k], f.aAfter.Cells[k]) {
 				ok = false
 			}
 		}
-		if !ok {
-			c := mk("violation", init, lines[:f.i+1], evs[:f.i+1], nil)
+		setsDiffer := !br.SameSets(f.after.Sets, f.aAfter.Sets)
+		if !ok || setsDiffer {
+			c := mk("violation", init, 0, f.i+1, nil, true)
 			res.viol = append(res.viol, vlib.Violation{
-				Class: classify(evs[:f.i], evs[f.i]),
-				What: fmt.Sprintf("line %q after %d earlier lines: metrics %v, %d runtime errors; the same line in a fresh VM with the same metric values: metrics %v, %d runtime errors",
-					lines[f.i], f.i, f.aAfter, f.aErrs, f.after, f.errs),
+				Class: classify(evs[:f.i], evs[f.i], setsDiffer),
+				What: fmt.Sprintf("line %q after %d earlier lines%s: metrics %s, %d runtime errors; the same line in a fresh VM with the same metric contents: metrics %s, %d runtime errors",
+					lines[f.i], f.i, removedNote(ext[:f.i+1]), show(f.aAfter), f.aErrs, show(f.after), f.errs),
 				Case: c})
 		}
 	}
 	// correspondence: the whole run
 	var obs []tmrun.Obs
 	for i := range lines {
-		obs = append(obs, tmrun.Obs{Cells: br.Canon(rawObs[i]), Errs: cum[i]})
+		obs = append(obs, mkObs(rawObs[i], cum[i]))
 	}
-	res.cases = append(res.cases, mk("history", init, lines, evs, obs))
-	res.nontrivial = append(res.nontrivial, interesting(evs))
+	c := mk("history", init, 0, len(lines), obs, true)
+	c.SlotKey = slots.Names
+	res.cases = append(res.cases, c)
+	res.nontrivial = append(res.nontrivial, interesting(evs, extSlots))
 	// ... and some of the fresh runs
 	for s := 0; s < freshSample && len(fr) > 0; s++ {
 		f := fr[len(fr)-1-s%len(fr)]
-		res.cases = append(res.cases, mk("fresh", f.before, lines[f.i:f.i+1], evs[f.i:f.i+1],
-			[]tmrun.Obs{{Cells: br.Canon(f.after), Errs: f.errs}}))
+		c := mk("fresh", f.before, f.i, f.i+1, []tmrun.Obs{mkObs(f.after, f.errs)}, false)
+		c.SlotKey = slots.Names
+		res.cases = append(res.cases, c)
 		res.nontrivial = append(res.nontrivial, f.i > 0 && len(evs[f.i]) > 0)
 	}
 	return res
 }
 
+func show(w tmrun.World) string {
+	s := fmt.Sprint(w.Cells)
+	for _, l := range w.Sets {
+		s += fmt.Sprintf(" %s%q=%d@%d", l.Metric, l.Labels, l.Val, l.Time)
+		if l.Expiry != 0 {
+			s += fmt.Sprintf("(expiry %d)", l.Expiry)
+		}
+	}
+	return s
+}
+
+func removedNote(ext [][]tmrun.SlotName) string {
+	s := ""
+	for i, xs := range ext {
+		for _, x := range xs {
+			s += fmt.Sprintf(" %s%q before line %d;", x.Metric, x.Labels, i)
+		}
+	}
+	if s == "" {
+		return ""
+	}
+	return " (label sets removed from the metric from outside the VM:" + s + ")"
+}
+
 // interesting: some line with events is preceded by a line that parsed the
-// same value, or that failed, stopped or raised an error.
-func interesting(evs [][]tmrun.Event) bool {
+// same value, or that failed, stopped or raised an error; or names a label
+// set that an earlier line named, or that was removed from outside.
+func interesting(evs [][]tmrun.Event, extSlots [][]int) bool {
 	seen := map[string]bool{}
+	named := map[int]bool{}
 	special := false
-	for _, l := range evs {
+	for i, l := range evs {
 		if len(l) > 0 && special {
 			return true
+		}
+		for _, m := range extSlots[i] {
+			named[m] = true
+		}
+		for _, e := range l {
+			if e.DM != "" && named[e.M] {
+				return true
+			}
+		}
+		for _, e := range l {
+			if e.DM != "" {
+				named[e.M] = true
+			}
 		}
 		for _, e := range l {
 			switch e.K {
@@ -205,6 +353,14 @@ func main() {
 					out.Count("event/" + e.K)
 				}
 			}
+			for _, x := range c.ExtSlots {
+				if len(x) > 0 {
+					out.Count("outside-removal")
+				}
+			}
+			if c.Prog.HasDim() {
+				out.Count("kind/" + c.Kind + "/dimensioned")
+			}
 		}
 		for _, v := range r.viol {
 			out.Violate(v.Class, v.What, v.Case)
@@ -214,18 +370,18 @@ func main() {
 	// corpus: the failing inputs of the unrepaired memo (DESIGN.md §6)
 	add(runOne(tmrun.Prog{Stmts: []tmrun.Stmt{{Tag: "A", Arg: tmrun.ArgStr,
 		Acts: []tmrun.Action{{K: "strp", Layout: "2006-01-02"}, {K: "inc", M: "c0"}}}}},
-		0, false, []string{"A bogus", "A bogus", "A 2020-01-01", "A bogus"}, 1))
+		0, false, []string{"A bogus", "A bogus", "A 2020-01-01", "A bogus"}, noGc, 1))
 	add(runOne(tmrun.Prog{Stmts: []tmrun.Stmt{
 		{Tag: "A", Arg: tmrun.ArgStr, Acts: []tmrun.Action{{K: "strp", Layout: "01/02/2006"}, {K: "gts", M: "g0"}}},
 		{Tag: "B", Arg: tmrun.ArgStr, Acts: []tmrun.Action{{K: "strp", Layout: "02/01/2006"}, {K: "gts", M: "g1"}}}}},
-		0, false, []string{"A 03/04/2020", "B 03/04/2020", "A 03/04/2020"}, 1))
+		0, false, []string{"A 03/04/2020", "B 03/04/2020", "A 03/04/2020"}, noGc, 1))
 	// a stop and an error must not leak into the next line
 	add(runOne(tmrun.Prog{Stmts: []tmrun.Stmt{
 		{Tag: "A", Arg: tmrun.ArgNone, Acts: []tmrun.Action{{K: "settc", N: 1234}, {K: "inc", M: "c0"}, {K: "stop"}}},
 		{Tag: "B", Arg: tmrun.ArgStr, Acts: []tmrun.Action{{K: "conv", M: "n0"}, {K: "inc", M: "c1"}}},
 		{Tag: "A", Arg: tmrun.ArgNone, Acts: []tmrun.Action{{K: "inc", M: "c1"}}},
 		{Tag: "C", Arg: tmrun.ArgNone, Acts: []tmrun.Action{{K: "gts", M: "g0"}, {K: "inc", M: "c0"}}}}},
-		1, false, []string{"A", "C", "B x", "C", "B 7", "A", "C"}, 2))
+		1, false, []string{"A", "C", "B x", "C", "B 7", "A", "C"}, noGc, 2))
 	// more than 64 distinct values: eviction, then the evicted value again
 	{
 		var ls []string
@@ -235,14 +391,14 @@ func main() {
 		ls = append(ls, ls[0], "A bogus", ls[1], "A bogus")
 		add(runOne(tmrun.Prog{Stmts: []tmrun.Stmt{{Tag: "A", Arg: tmrun.ArgStr,
 			Acts: []tmrun.Action{{K: "strp", Layout: "2006-01-02"}, {K: "gts", M: "g0"}, {K: "inc", M: "c0"}}}}},
-			2, false, ls, 1))
+			2, false, ls, noGc, 1))
 	}
 
 	// a capture group must not survive the line: `cmp || CONST_PATTERN` skips the
 	// pattern when the comparison holds, and the body reads the group
 	add(runOne(tmrun.Prog{Stmts: []tmrun.Stmt{{Kind: "sc", Tag: "K0", Lit: "b0", Acts: []tmrun.Action{
 		{K: "inc", M: "c0"}, {K: "strp", Layout: "2006-01-02"}, {K: "gts", M: "g0"}, {K: "inc", M: "c1"}}}}},
-		0, false, []string{"K0 2020-01-01", "b0", "b0", "zzz", "K0 bogus", "b0", "K0 2019-12-31", "b0"}, 2))
+		0, false, []string{"K0 2020-01-01", "b0", "b0", "zzz", "K0 bogus", "b0", "K0 2019-12-31", "b0"}, noGc, 2))
 	// the instruction that ends a line is the last one of the program
 	for _, term := range [][]tmrun.Action{
 		{{K: "inc", M: "c2"}, {K: "stop"}},
@@ -251,10 +407,47 @@ func main() {
 		add(runOne(tmrun.Prog{Stmts: []tmrun.Stmt{
 			{Kind: "uncond", Acts: []tmrun.Action{{K: "inc", M: "c0"}}},
 			{Tag: "GET", Arg: tmrun.ArgStr, Acts: []tmrun.Action{{K: "inc", M: "c1"}}, Else: term}}},
-			0, false, []string{"GET /a", "POST /b", "GET /index.html", "POST /c", "POST /d", "GET /e"}, 2))
+			0, false, []string{"GET /a", "POST /b", "GET /index.html", "POST /c", "POST /d", "GET /e"}, noGc, 2))
 	}
 
-	nprog := 170
+	// ---- metrics with keys ----
+	L := func(m string, a, b string) tmrun.SlotName { return tmrun.SlotName{Metric: m, Labels: []string{a, b}} }
+	dimProg := tmrun.Prog{Stmts: []tmrun.Stmt{
+		{Tag: "D", Arg: tmrun.ArgDim2, Acts: []tmrun.Action{{K: "dinc", M: "d0"}}},
+		{Tag: "T", Arg: tmrun.ArgDim2, Acts: []tmrun.Action{{K: "settc", N: 1234}, {K: "dinc", M: "d0"}, {K: "inc", M: "c0"}}},
+		{Tag: "X", Arg: tmrun.ArgDim2, Acts: []tmrun.Action{{K: "ddel", M: "d0"}}},
+		{Tag: "Y", Arg: tmrun.ArgDim2, Acts: []tmrun.Action{{K: "dexp", M: "d0"}, {K: "inc", M: "c1"}}},
+		{Tag: "E", Arg: tmrun.ArgDim3, Acts: []tmrun.Action{{K: "dset", M: "e0"}, {K: "gts", M: "g0"}}},
+		{Tag: "W", Arg: tmrun.ArgDim2, Acts: []tmrun.Action{{K: "dinc", M: "d0"}, {K: "ddel", M: "d0"}, {K: "dinc", M: "d0"}, {K: "dts", M: "e0"}}}}}
+	// a label set made by one line, removed from the metric from outside the VM
+	// (expiry / limit: Store.Gc -> Metric.RemoveDatum), named again later
+	add(runOne(dimProg, 0, false, []string{"T a b", "D a b", "D a b", "Y a b", "D c d", "D a b", "Y a b", "X a b", "D a b", "Y c d"},
+		afterLine(map[int][]tmrun.SlotName{2: {L("d0", "a", "b")}, 5: {L("d0", "a", "b")}, 9: {L("d0", "c", "d")}}), 3))
+	add(runOne(dimProg, 2, false, []string{"E a b 5", "E a b x", "E c d x", "E a b 7", "E c d -1", "E a b 99999999999999999999", "E a b 2"},
+		afterLine(map[int][]tmrun.SlotName{3: {L("e0", "a", "b")}, 5: {L("e0", "c", "d"), L("e0", "a", "b")}}), 2))
+	// label tuples whose naive joins coincide
+	for _, fam := range tmrun.LabelPairs {
+		var ls []string
+		for _, t := range fam {
+			ls = append(ls, "T "+t[0]+" "+t[1])
+		}
+		for _, t := range fam {
+			ls = append(ls, "D "+t[0]+" "+t[1])
+		}
+		ls = append(ls, "X "+fam[0][0]+" "+fam[0][1], "Y "+fam[1][0]+" "+fam[1][1], "Y "+fam[0][0]+" "+fam[0][1],
+			"D "+fam[1][0]+" "+fam[1][1], "D "+fam[0][0]+" "+fam[0][1], "W "+fam[1][0]+" "+fam[1][1], "W "+fam[0][0]+" "+fam[0][1])
+		add(runOne(dimProg, 0, false, ls, noGc, 1))
+	}
+	// del by the program itself, then the same label set again; two metrics
+	// with the same keys fed from the same label values
+	add(runOne(tmrun.Prog{Stmts: []tmrun.Stmt{
+		{Tag: "D", Arg: tmrun.ArgDim2, Acts: []tmrun.Action{{K: "dinc", M: "d0"}, {K: "dinc", M: "d1"}}},
+		{Tag: "X", Arg: tmrun.ArgDim2, Acts: []tmrun.Action{{K: "ddel", M: "d0"}}},
+		{Tag: "V", Arg: tmrun.ArgDim2, Acts: []tmrun.Action{{K: "ddel", M: "d1"}, {K: "dexp", M: "d0"}, {K: "dexp", M: "d1"}}}}},
+		1, false, []string{"D a b", "X a b", "D a b", "D a b", "V a b", "X a b", "V a b", "D a b", "D b a", "X b a", "V a b", "D b a"},
+		afterLine(map[int][]tmrun.SlotName{8: {L("d1", "a", "b")}}), 2))
+
+	nprog := 190
 	if a.Thorough() {
 		nprog = 3000
 	}
@@ -271,7 +464,17 @@ func main() {
 				lines[j] = vlib.Pick(rng, pool)
 			}
 		}
-		r := runOne(p, rng.Intn(len(tmrun.ZoneNames)), rng.Chance(40), lines, 1)
+		if p.HasDim() && n < 8 {
+			n += 4
+			for len(lines) < n {
+				if rng.Chance(35) {
+					lines = append(lines, lines[rng.Intn(len(lines))])
+				} else {
+					lines = append(lines, vlib.Pick(rng, pool))
+				}
+			}
+		}
+		r := runOne(p, rng.Intn(len(tmrun.ZoneNames)), rng.Chance(40), lines, randomGc(rng), 1)
 		if r.compileErr {
 			compileErrs++
 			continue
@@ -279,7 +482,7 @@ func main() {
 		add(r)
 	}
 	out.Extra["programs_rejected_by_compiler"] = compileErrs
-	out.Flush("a case is a generated program (strptime/settime/timestamp()/stop/failing int()) run on the real VM over a history of 3-12 lines drawn with repetition from a pool of parsing, non-parsing and cross-layout payloads, or one line on a fresh VM preset to the metrics reached; non-trivial when a line with events follows a line that parsed the same value, failed, stopped or raised a runtime error", false)
+	out.Flush("a case is a generated program (strptime/settime/timestamp()/stop/failing int(); 40% also with one or two metrics with two keys: x[$1][$2]++, = int($3), = timestamp(), del, del after) run on the real VM over a history of 3-12 lines drawn with repetition from a pool of parsing, non-parsing and cross-layout payloads and of label tuples that coincide under naive joining, with live label sets removed from outside the VM before a quarter of the lines; or one line on a fresh VM preset to the metrics reached; non-trivial when a line with events follows a line that parsed the same value, failed, stopped or raised a runtime error, or names a label set that an earlier line named or that was removed from outside", false)
 }
 
 func replay(path string) {
@@ -288,8 +491,13 @@ func replay(path string) {
 	}
 	vlib.ReadJSON(path, &v)
 	c := v.Case
-	fmt.Printf("replay %s\nprogram:\n%szone=%q syslogUseCurrentYear=%v\n", path, c.Src, tmrun.ZoneNames[c.Zone], c.UseYear)
-	r := runOne(c.Prog, c.Zone, c.UseYear, c.Lines, 0)
+	fmt.Printf("replay %s\nprogram:\n%szone=%q syslogUseCurrentYear=%v\nlines: %q\n", path, c.Src, tmrun.ZoneNames[c.Zone], c.UseYear, c.Lines)
+	for i, xs := range c.Ext {
+		for _, x := range xs {
+			fmt.Printf("before line %d: %s%q is removed from the metric from outside the VM\n", i, x.Metric, x.Labels)
+		}
+	}
+	r := runOne(c.Prog, c.Zone, c.UseYear, c.Lines, recordedGc(c.Ext), 0)
 	if r.compileErr {
 		fmt.Println("program does not compile")
 		os.Exit(2)
@@ -300,5 +508,5 @@ func replay(path string) {
 	if len(r.viol) > 0 {
 		os.Exit(1)
 	}
-	fmt.Println("holds: every line behaves as in a fresh VM with the same metric values")
+	fmt.Println("holds: every line behaves as in a fresh VM with the same metric contents")
 }
